@@ -299,6 +299,11 @@ class VecInterp {
           if (static_cast<long>(have) < cap) cap_trusted = false;
         }
       }
+    } else if (inl && !inside(i, reinterpret_cast<const char *>(d + cap) - 1) && cap > 0) {
+      // the inline slots must lie inside the object entirely: the last one ends beyond it
+      violation(P05 | P07 | P17, "%s: the %ld inline slots of %zu bytes starting at offset %ld do not fit in the object of %zu bytes", what, cap, sizeof(E),
+                static_cast<long>(reinterpret_cast<const char *>(d) - static_cast<const char *>(s[i].mem)), sizeof(V));
+      cap_trusted = false;
     } else if (inl && cap > T::N) {
       violation(P07 | P05, "%s: inline vector reports capacity() %ld > N", what, cap);
       cap_trusted = false;
